@@ -48,3 +48,144 @@ PROPS = {
                 assumptions=["imbl::Vector behaves like a list for the operations VectorDiff::apply uses (checked differentially on every case)",
                              "usize indices/lengths do not overflow"]),
 }
+
+
+# ---------------------------------------------------------------- adapters
+SCRIPT = "adapters are driven through scripted inner / limit streams (they are generic over their input streams); the source-side stream is covered by C05-C08"
+ADAPT_TRUST = [KERNEL, EXTRACTION, CORR, IMBL,
+               "std VecDeque::partition_point modelled by its result on partitioned input; SmallVec/ArrayVec buffers modelled as FIFO lists (ArrayVec capacity 2 modelled as a panic beyond 2)",
+               SCRIPT]
+ALL_KINDS = ("head", "tail", "skip", "filter", "filter_map", "sort", "sort_by", "sort_by_key")
+
+
+def adapt_nontriv(case, obs):
+    # at least one diff was emitted to the consumer
+    return "R:" in obs
+
+
+def adapt_hist(case, obs):
+    h, _, e = case.partition(" :: ")
+    w = h.split()
+    evs = [x for x in e.split(" ; ") if x[:2] in ("d:", "b:", "l:")]
+    last = evs[-1] if evs else "-"
+    k = last[:2] + (diff_kind(last[2:]) if last[:2] != "l:" else "limit")
+    return "%s/%s/%s/%s%s" % (w[0], w[1], w[2], k, "/PANIC" if "PANIC" in obs else "")
+
+
+def c09_streams(tier, rng):
+    q = tier == "quick"
+    ml, mp = (4, 6) if q else (5, 7)
+    n = 4000 if q else 150000
+    kinds = ("head", "tail", "skip")
+    orc = {"view", "app", "end"}
+    return [
+        Stream("single-step", "adapt", gens.lts_single_step(kinds, ml, mp), adapt_nontriv, True,
+               "head/tail/skip x {static,dyninit,dynamic} x {unbatched,batched}: source [1..n] n<=%d x limit/count 0..%d x every diff kind with every index 0..n+1 (Append/Reset of 0..3 items) and every limit/count change 0..%d -> 0..%d; every adapter state is an initial state, so this covers the whole transition function up to the bounds; non-trivial = a diff is emitted" % (ml, mp, mp, mp),
+               adapt_hist, oracles=orc),
+        Stream("random", "adapt", gens.rand_adapt(rng, kinds, n), adapt_nontriv, False,
+               "%d seeded random histories of 3..30 events (source diffs, batches, limit changes, single polls, drains, end of source/limit stream) over scripted streams" % n,
+               adapt_hist, oracles=orc),
+    ]
+
+
+def c10_streams(tier, rng):
+    q = tier == "quick"
+    ml = 4 if q else 5
+    n = 4000 if q else 150000
+    orc = {"view", "app", "end"}
+    return [
+        Stream("single-step", "adapt", gens.filter_single_step(ml), adapt_nontriv, True,
+               "filter/filter_map x {unbatched,batched}: source [0..n-1] n<=%d x all 2^n pass/fail assignments x every applicable diff with passing (6) and failing (7) new items, Append/Reset with every pass/fail pattern up to 3 items" % ml,
+               adapt_hist, oracles=orc),
+        Stream("random", "adapt", gens.rand_adapt(rng, ("filter", "filter_map"), n), adapt_nontriv, False,
+               "%d seeded random histories of 3..30 events, random 8-bit pass mask" % n, adapt_hist, oracles=orc),
+    ]
+
+
+def c11_streams(tier, rng):
+    q = tier == "quick"
+    ml = 3 if q else 4
+    n = 4000 if q else 150000
+    orc = {"view", "app", "end", "sortcontract"}
+    return [
+        Stream("single-step", "adapt", gens.sort_single_step(ml), adapt_nontriv, True,
+               "sort/sort_by/sort_by_key x {unbatched,batched}: sources of n<=%d items over keys {0,1,2} (all tie patterns; item = key*10+position) x every applicable diff with new keys 0,1,2" % ml,
+               adapt_hist, oracles=orc),
+        Stream("random", "adapt", gens.rand_adapt(rng, ("sort", "sort_by", "sort_by_key"), n), adapt_nontriv, False,
+               "%d seeded random histories of 3..30 events; items key*10+uid, all distinct" % n, adapt_hist, oracles=orc),
+    ]
+
+
+def c15_streams(tier, rng):
+    q = tier == "quick"
+    ml, mp = (4, 6) if q else (5, 7)
+    n = 3000 if q else 100000
+    kinds = ("head", "tail")
+    return [
+        Stream("single-step", "adapt", gens.lts_single_step(kinds, ml, mp, flavs=("static",)), adapt_nontriv, True,
+               "head/tail with a fixed limit x {unbatched,batched}: source [1..n] n<=%d x limit 0..%d x every diff; the view length is checked after every single emitted diff" % (ml, mp),
+               adapt_hist, oracles={"bound"}),
+        Stream("random", "adapt", gens.rand_adapt(rng, kinds, n, flavs=("static",)), adapt_nontriv, False,
+               "%d seeded random histories on fixed-limit head/tail" % n, adapt_hist, oracles={"bound"}),
+    ]
+
+
+def c13_streams(tier, rng):
+    q = tier == "quick"
+    ml, mp = (3, 4) if q else (4, 6)
+    n = 4000 if q else 150000
+    orc = {"samediffs", "nonemptybatch"}
+    return [
+        Stream("single-step-ub", "adapt",
+               gens.lts_single_step(("head", "tail", "skip"), ml, mp, bats=("ub",), flavs=("static",), include_bad=False),
+               adapt_nontriv, True,
+               "head/tail/skip with fixed parameter: the same single-diff history on the unbatched and the batched flavour, emitted diffs compared", adapt_hist, oracles=orc),
+        Stream("random-ub", "adapt",
+               gens.rand_adapt(rng, ALL_KINDS, n, bats=("ub",), flavs=("static",), lone_polls=False), adapt_nontriv, False,
+               "%d seeded random histories (multi-diff batches = transactions) on all eight adapters with fixed parameters, run on both flavours; per drain the flattened diffs must be equal; no empty batch" % n,
+               adapt_hist, oracles=orc),
+        Stream("random-b", "adapt", gens.rand_adapt(rng, ALL_KINDS, n // 2, bats=("b",)), adapt_nontriv, False,
+               "%d seeded random batched histories incl. dynamic limits (one batch per limit change; no empty batch)" % (n // 2),
+               adapt_hist, oracles={"nonemptybatch"}),
+    ]
+
+
+def c14_streams(tier, rng):
+    q = tier == "quick"
+    n = 6000 if q else 200000
+    return [
+        Stream("single-step", "adapt", gens.lts_single_step(("head", "tail", "skip"), 3, 4, include_bad=False),
+               adapt_nontriv, True,
+               "head/tail/skip single-step block: the poll trace of every input (which input was polled, what it answered) is compared with the model's, and at every Pending each input's stored waker must be the caller's (will_wake)",
+               adapt_hist, oracles={"reg"}),
+        Stream("random", "adapt", gens.rand_adapt(rng, ALL_KINDS, n), adapt_nontriv, False,
+               "%d seeded random histories with single polls interleaved after arbitrary events, ends of source / limit stream" % n,
+               adapt_hist, oracles={"reg"}),
+    ]
+
+
+PROPS.update({
+    "C09": dict(streams=c09_streams, trusted=ADAPT_TRUST,
+                assumptions=["the inner stream delivers diffs applicable to the source (C05/C06 for a subscriber stream, the previous stage's theorem in a chain)",
+                             "usize arithmetic does not overflow", "known finding tail_shrink_over_len excluded (see known_findings.json)"],
+                strength="full outside the known-finding class tail_shrink_over_len",
+                level_text="Coq theorems for all element types, buffers, limits/counts and diffs: Head/Tail/Skip one-step correctness (no panic; emitted diffs applicable one by one; view = first/last/all-but-first items), every limit/count change (Tail: outside the recorded class 0<new<len<old, for which the refutation witness is proved), lifted by induction to arbitrary event sequences, plus stream end <=> source end on the poll-loop model. The models are transcriptions of handle_diff/update_limit/update_count and the poll loops; they are tied to the crate by an exhaustive single-step run from every small state plus random histories on every check.",
+                level_note="Trusted: Coq kernel, extraction, harness; imbl::Vector as list; adapters driven by scripted input streams. Known finding F4 (Tail limit decrease 0<new<len<old, pinned by an existing test) is excluded from the theorem and reported as KNOWN-FINDING."),
+    "C10": dict(streams=c10_streams, trusted=ADAPT_TRUST,
+                assumptions=["the inner stream delivers diffs applicable to the source", "the filter function is pure (same answer for the same item)"],
+                level_text="Coq theorem for every filter/partial mapping f, source and applicable diff: filter_on_diff does not panic, keeps filtered_indices/original_len exact and emits at most one diff taking filter_map f of the old source to that of the new (incl. Reset with nothing passing, after the fix), lifted to arbitrary diff sequences; stream end <=> source end. Tied to filter.rs by an exhaustive run over all pass/fail assignments of small sources plus random histories.",
+                level_note="Trusted: Coq kernel, extraction, harness; imbl::Vector as list; VecDeque::partition_point by its contract on partitioned input."),
+    "C15": dict(streams=c15_streams, trusted=ADAPT_TRUST,
+                assumptions=["the inner stream delivers diffs applicable to the source"],
+                level_text="Coq theorems: for every limit, buffer and applicable diff the diffs emitted by Head and Tail, applied one at a time, never produce an intermediate view longer than the limit (apply_all_ok_bound), and the initial values respect it. Tied to head.rs/tail.rs by the C09 correspondence restricted to fixed limits, with the view length checked after every single diff on the implementation.",
+                level_note="Trusted: as C09."),
+    "C13": dict(streams=c13_streams, trusted=ADAPT_TRUST,
+                assumptions=["fixed parameters for the batched/unbatched equality", "a source batch is one top-level operation or one committed transaction (C07)"],
+                level_text="Coq theorems generic in the adapter step function: the unbatched poll loop delivers exactly the next pending diff per poll and the batched loop a non-empty prefix ending at a source-batch boundary, both measured against the same reference (flat_map of the step function over all queued source diffs), so the two flavours deliver the same diffs in the same order; empty batches are never emitted; a limit change yields exactly one batch. Tied to ops.rs and the five poll loops by running every history on both flavours of the real adapters.",
+                level_note="Trusted: as C09; the theorem is about the poll-loop/container model of ops.rs."),
+    "C14": dict(streams=c14_streams, trusted=ADAPT_TRUST + ["Waker identity checked with Waker::will_wake on the implementation side"],
+                assumptions=["an input stream that answers Pending keeps the waker it was polled with (Stream contract; C02 for Subscriber, tokio broadcast for the vector subscriber)"],
+                strength="partial: adapters' poll loops proved; the source stream's waiter list (tokio broadcast, ReusableBoxFuture) is modelled in C05-C08, not re-proved here",
+                level_text="Coq theorems on the poll-loop model, generic in the adapter: a poll answers Pending only after, in that very call, the inner stream answered Pending and the limit stream answered Pending or its terminal end, with nothing deliverable left (ready buffer and queues empty); and a drained adapter stays Pending until an input has something. Tied to the five poll_next loops by comparing the complete poll trace of both inputs on every poll and checking will_wake on every stored waker.",
+                level_note="Trusted: as C09, plus the Stream contract of the inputs."),
+})
